@@ -110,9 +110,22 @@ func (ex *Exec) ctxFor(fr *frame, st *State, lc *loopCtx) *EvalCtx {
 	if fr.fn.Pkg != nil {
 		ctx.pkgPath = fr.fn.Pkg.Pkg.Path()
 	}
+	// the names the contract uses for the parameters (positional, receiver first), where it gives them: they stand for
+	// the parameters whatever the code calls them today
+	alias := map[string]string{} // code name -> contract name
+	if fc := ex.P.ContractFor(fr.fn); fc != nil && len(fc.Params) == len(fr.fn.Params) {
+		for i, p := range fr.fn.Params {
+			if fc.Params[i] != "" && fc.Params[i] != "_" {
+				alias[p.Name()] = fc.Params[i]
+			}
+		}
+	}
 	for _, p := range fr.fn.Params {
 		if v, ok := st.vals[p]; ok {
 			ctx.vars[p.Name()] = tv{v, p.Type()}
+			if a, ok := alias[p.Name()]; ok {
+				ctx.vars[a] = tv{v, p.Type()}
+			}
 		}
 	}
 	if lc != nil {
@@ -125,6 +138,9 @@ func (ex *Exec) ctxFor(fr *frame, st *State, lc *loopCtx) *EvalCtx {
 			if _, isParam := ctx.vars[ph.Comment]; isParam {
 				if v, ok := st.vals[ph]; ok {
 					ctx.vars[ph.Comment] = tv{v, ph.Type()}
+					if a, ok := alias[ph.Comment]; ok {
+						ctx.vars[a] = tv{v, ph.Type()}
+					}
 				}
 			}
 		}
